@@ -6,7 +6,7 @@
 //!
 //! view  = name|start|end|nm|score|strand|others   ("~" = accessor absent for this N)
 //! owned = same shape, from RecordBuf<N>::try_from_feature_record, or Err:<kind> / Panic
-//! entry = <result of read_record>/<view>/<owned>
+//! entry = <result of read_record>/<view>/<owned>/<rewrite>   (rewrite = the owned record through the real writer: NV.Text.BedRewrite)
 
 use super::*;
 
@@ -151,17 +151,46 @@ fn owned6(x: &bed::Record<6>) -> String {
     })
 }
 
+/// The copy loop's write of the record state (NV.Text.BedRewrite.bed_rewrite_view):
+/// RecordBuf<N>::try_from_feature_record, then the real writer; hex of the line without its LF,
+/// Err:<kind> of the conversion or of the writer, or Panic.
+macro_rules! rewrite_fn {
+    ($name:ident, $n:literal) => {
+        fn $name(x: &bed::Record<$n>) -> String {
+            acc(|| match bed::feature::RecordBuf::<$n>::try_from_feature_record(x) {
+                Err(e) => format!("Err:{}", errkind(&e)),
+                Ok(b) => {
+                    let mut w = bed::io::Writer::<$n, _>::new(Vec::new());
+                    match w.write_feature_record(&b) {
+                        Err(e) => format!("Err:{}", errkind(&e)),
+                        Ok(()) => {
+                            let bytes = w.into_inner();
+                            assert_eq!(bytes.last(), Some(&b'\n'), "writer ends the line with LF");
+                            hex(&bytes[..bytes.len() - 1])
+                        }
+                    }
+                }
+            })
+        }
+    };
+}
+rewrite_fn!(rewrite3, 3);
+rewrite_fn!(rewrite4, 4);
+rewrite_fn!(rewrite5, 5);
+rewrite_fn!(rewrite6, 6);
+
 /// One entry per read_record call.
 #[derive(Clone, Debug, PartialEq)]
 pub struct Entry {
     pub res: String,
     pub view: String,
     pub owned: String,
+    pub rewrite: String,
 }
 
 impl Entry {
     pub fn text(&self) -> String {
-        format!("{}/{}/{}", self.res, self.view, self.owned)
+        format!("{}/{}/{}/{}", self.res, self.view, self.owned, self.rewrite)
     }
     pub fn is_record(&self) -> bool {
         self.res.parse::<u64>().map(|k| k > 0).unwrap_or(false)
@@ -169,7 +198,7 @@ impl Entry {
 }
 
 macro_rules! read_loop {
-    ($n:literal, $view:ident, $owned:ident, $bytes:expr, $reuse:expr, $fuel:expr, $go_on:expr) => {{
+    ($n:literal, $view:ident, $owned:ident, $rewrite:ident, $bytes:expr, $reuse:expr, $fuel:expr, $go_on:expr) => {{
         let mut reader = bed::io::Reader::<$n, _>::new($bytes);
         let mut rec = bed::Record::<$n>::default();
         let mut out: Vec<Entry> = Vec::new();
@@ -184,7 +213,7 @@ macro_rules! read_loop {
                 Outcome::Done(Ok(k)) => (k.to_string(), false),
                 Outcome::Done(Err(e)) => (format!("Err:{}", errkind(&e)), !$go_on),
             };
-            out.push(Entry { res, view: $view(&rec), owned: $owned(&rec) });
+            out.push(Entry { res, view: $view(&rec), owned: $owned(&rec), rewrite: $rewrite(&rec) });
             if stop {
                 break;
             }
@@ -197,10 +226,10 @@ macro_rules! read_loop {
 /// default record per call; `go_on` = keep reading after an error.
 pub fn read_text(n: usize, bytes: &[u8], reuse: bool, fuel: usize, go_on: bool) -> Vec<Entry> {
     match n {
-        3 => read_loop!(3, view3, owned3, bytes, reuse, fuel, go_on),
-        4 => read_loop!(4, view4, owned4, bytes, reuse, fuel, go_on),
-        5 => read_loop!(5, view5, owned5, bytes, reuse, fuel, go_on),
-        6 => read_loop!(6, view6, owned6, bytes, reuse, fuel, go_on),
+        3 => read_loop!(3, view3, owned3, rewrite3, bytes, reuse, fuel, go_on),
+        4 => read_loop!(4, view4, owned4, rewrite4, bytes, reuse, fuel, go_on),
+        5 => read_loop!(5, view5, owned5, rewrite5, bytes, reuse, fuel, go_on),
+        6 => read_loop!(6, view6, owned6, rewrite6, bytes, reuse, fuel, go_on),
         _ => panic!("bed n"),
     }
 }
@@ -251,6 +280,17 @@ pub fn run_bedraw(c: &Case) -> Obs {
         }
         if a.is_record() && !a.view.contains("Err:") && !a.view.contains("Panic") && a.owned != a.view {
             return o.with_verdict(Err(("bed-lazy-differs-from-owned".into(), format!("call {i}: lazy={} owned={}", a.view, a.owned))));
+        }
+        // oracle (c18_bed_rewrite_idempotent): a line the copy loop writes is a fixpoint of
+        // read -> own -> write
+        if a.is_record() && !a.rewrite.starts_with("Err:") && a.rewrite != "Panic" {
+            let mut line = unhex(&a.rewrite);
+            line.push(b'\n');
+            let again = read_text(n, &line, false, 1, false);
+            let got = again.first().map(|e| if e.is_record() { e.rewrite.clone() } else { e.res.clone() }).unwrap_or("NoLine".into());
+            if got != a.rewrite {
+                return o.with_verdict(Err(("bed-rewrite-not-idempotent".into(), format!("call {i}: rewritten={} rewritten again={got}", a.rewrite))));
+            }
         }
     }
     o
